@@ -1110,4 +1110,6 @@ class Compiler:
             logger.info('Optimizing code...')
             code.optimize()
 
+        code.check_limits()
+
         return code
